@@ -23,6 +23,7 @@ shortest-round-trip algorithm of Driver/C03.lean (copied: a driver cannot import
 -/
 import TeraModel.Model.Vm
 import TeraModel.Model.VmCheck
+import TeraModel.Model.VmBodyCheck
 import TeraModel.Model.Builtins
 import TeraModel.Model.AstWire
 import TeraModel.Generated.Builtins
@@ -436,6 +437,29 @@ def handleCheck (ts : List String) : Except String String := do
   else pure (s!"fail {chunks.length} {bad.length} " ++
     String.intercalate " " (bad.map fun (id, ch) => id ++ ":" ++ firstBad ch.code))
 
+/-- (p2_vmprops) `check01 <env>`: the static hypotheses of C01 on the real listings
+(Model/VmBodyCheck.lean): `c01 <c01StaticCheck t|f> <some chunk applies the `safe` filter t|f>
+<chunks> <chunks with a RenderBodyComponent> <chunks refused by bodyCheck> <which of < > " ' occur
+in WriteText text: letters of LGQA, or ->`. -/
+def handleCheck01 (ts : List String) : Except String String := do
+  let some (env, r) := pEnv ts | throw "env"
+  if !r.isEmpty then throw "trailing"
+  let chunks := allChunks env
+  let withBody := chunks.filter fun (_, ch) => ch.code.any fun e => isBodyComp e.1
+  let refused := chunks.filter fun (_, ch) => !bodyCheck ch
+  let usesSafe := chunks.any fun (_, ch) => ch.code.any fun e =>
+    match e.1 with
+    | .applyFilter n => n == "safe"
+    | _ => false
+  let lits : List Char := chunks.flatMap fun (_, ch) => ch.code.flatMap fun e =>
+    match e.1 with
+    | .writeText t => t
+    | _ => []
+  let flag (c : Char) (l : Char) : List Char := if lits.contains c then [l] else []
+  let letters := flag '<' 'L' ++ flag '>' 'G' ++ flag '"' 'Q' ++ flag '\'' 'A'
+  let b (x : Bool) : String := if x then "t" else "f"
+  pure s!"c01 {b (c01StaticCheck env)} {b usesSafe} {chunks.length} {withBody.length} {refused.length} {if letters.isEmpty then "-" else String.ofList letters}"
+
 def handle (line : String) : String :=
   match Wire.tokens line with
   | "render" :: rest =>
@@ -444,6 +468,10 @@ def handle (line : String) : String :=
     | .error w => "bad-request " ++ w
   | "check" :: rest =>
     match handleCheck rest with
+    | .ok s => s
+    | .error w => "bad-request " ++ w
+  | "check01" :: rest =>
+    match handleCheck01 rest with
     | .ok s => s
     | .error w => "bad-request " ++ w
   | _ => "bad-request op"
